@@ -203,6 +203,7 @@ class Item:
     serde: bool = True
     concrete: Dict[str, str] = dfield(default_factory=dict)
     param_default_tys: Dict[str, "Ty"] = dfield(default_factory=dict)
+    via_macro: bool = False                  # declared through macro_rules!, field types arrive as `$t:ty` fragments
 
     def shape_tag(self):
         if self.kind != "enum":
@@ -389,7 +390,33 @@ class Spelling:
 
 
 def emit_item(it: Item, spell=None, derives=None) -> str:
+    if it.via_macro == "tymacro":
+        # every field type is written as a macro invocation in type position (`Type::Macro` for the derive)
+        return _emit_item(it, spell, derives, tyspell=lambda text: f"ty_is!({text})")
+    if it.via_macro:
+        return _emit_via_macro(it, spell, derives)
+    return _emit_item(it, spell, derives)
+
+
+def _emit_via_macro(it: Item, spell, derives) -> str:
+    """The same item declared by a macro_rules! macro that receives every field type as a `ty` fragment
+    (the derive then sees `Type::Group` nodes instead of plain paths)."""
+    tys = []
+
+    def frag(text):
+        tys.append(text)
+        return f"$t{len(tys) - 1}"
+    body = _emit_item(it, spell, derives, tyspell=frag)
+    mname = "decl_" + it.name.replace("r#", "").lower() + "_" + it.id.lower().replace("#", "_")
+    pats = ", ".join(f"$t{i}:ty" for i in range(len(tys)))
+    indented = "\n".join("        " + l for l in body.split("\n"))
+    return (f"macro_rules! {mname} {{\n    ({pats}) => {{\n{indented}\n    }};\n}}\n"
+            f"{mname}!({', '.join(tys)});")
+
+
+def _emit_item(it: Item, spell=None, derives=None, tyspell=None) -> str:
     spell = spell or Spelling("serde" if it.serde else "ts")
+    tyspell = tyspell or (lambda text: text)
     lines = []
     lines.extend(it.docs)
     ds = derives if derives is not None else it.derives
@@ -436,14 +463,14 @@ def emit_item(it: Item, spell=None, derives=None) -> str:
         for f in fields:
             for a in f.attrs(spell):
                 out.append(indent + a)
-            out.append(f"{indent}pub {f.name}: {f.ty.rs(self_name)},")
+            out.append(f"{indent}pub {f.name}: {tyspell(f.ty.rs(self_name))},")
         return out
 
     def fields_unnamed(fields, pub=True):
         parts = []
         for f in fields:
             a = " ".join(f.attrs(spell))
-            parts.append((a + " " if a else "") + ("pub " if pub else "") + f.ty.rs(self_name))
+            parts.append((a + " " if a else "") + ("pub " if pub else "") + tyspell(f.ty.rs(self_name)))
         return ", ".join(parts)
 
     if it.kind == "unit":
@@ -475,14 +502,14 @@ def emit_item(it: Item, spell=None, derives=None) -> str:
                 inner = []
                 for f in v.fields:
                     a = " ".join(f.attrs(spell))
-                    inner.append((a + " " if a else "") + f.ty.rs(self_name))
+                    inner.append((a + " " if a else "") + tyspell(f.ty.rs(self_name)))
                 lines.append(f"    {v.name}({', '.join(inner)}),")
             else:
                 lines.append(f"    {v.name} {{")
                 for f in v.fields:
                     for a in f.attrs(spell):
                         lines.append("        " + a)
-                    lines.append(f"        {f.name}: {f.ty.rs(self_name)},")
+                    lines.append(f"        {f.name}: {tyspell(f.ty.rs(self_name))},")
                 lines.append("    },")
         lines.append("}")
     else:
@@ -496,6 +523,7 @@ def emit_item(it: Item, spell=None, derives=None) -> str:
 @dataclass
 class Profile:
     max_depth: int = 3
+    p_macro: float = 0.04            # items declared through a macro_rules! macro (field types as `ty` fragments)
     generics: bool = True
     flatten: bool = True
     inline: bool = True
@@ -876,6 +904,9 @@ class Gen:
         if it.kind in ("newtype", "tuple"):
             it.kind = "newtype" if len(it.fields) == 1 else "tuple"
         it.recursive = it.recursive or any(f.ty.has("self") for f in it.all_fields()) or any(d.recursive for d in it.deps())
+        if self.p.p_macro and any(True for _ in it.all_fields()) and self.r.random() < self.p.p_macro:
+            it.via_macro = True if it.concrete else self.r.choice([True, True, "tymacro"])
+            it.tags.append("k:declared-by-macro" if it.via_macro is True else "k:field-types-are-macro-invocations")
         if self.p.placements:
             self.place(it)
         self.items.append(it)
@@ -974,6 +1005,7 @@ use std::collections::{BTreeMap, BTreeSet, HashMap, HashSet};
 use serde::{Deserialize, Serialize};
 use ts_rs::TS;
 use vsupport::{Samples, SerdeAttrs, TypeEntry};
+macro_rules! ty_is { ($t:ty) => { $t }; }
 """
 
 
